@@ -101,10 +101,22 @@ def run(ck):
     if crashed: continue
     # the same inputs driven with sim_tick() alone (poke inputs, tick, read — no explicit combinational evaluation first):
     # the edge must still see F(pre-edge state, inputs of THIS cycle), whatever the pass group's tick is assembled from
+    reset_sig = next((s_ for s_ in d.sigs if s_.comp == '' and s_.name == 'reset'), None)
     for nflow, flow in enumerate(rng.sample(['default', 'simple', 'heutopo', 'mamba', 'unroll'], 2)):
       try:
         rs = rtlgen.RealSim(cls, d, flow)
         got = []
+        want = [list(b_) for (_a, b_) in ref_trace]
+        if nflow == 0 and reset_sig is not None:
+          # start with sim_reset(): three edges with reset asserted, each of which must see the combinational logic settled on
+          # the state the previous edge left (registers without a reset clause show it), then reset released
+          ins0 = [(g, v) for (g, v) in cycles[0] if g != reset_sig.idx]
+          ref2 = rtlgen.RefSim(d)
+          for _r in range(3): ref2.cycle(ins0 + [(reset_sig.idx, 1)])
+          for g, v in ins0 + [(reset_sig.idx, 0)]: ref2.vals[g] = v
+          ref2.eval_comb()
+          want = [list(ref2.vals)] + [list(ref2.cycle(c)[1]) for c in cycles]
+          rs.set_inputs(ins0); rs.top.sim_reset(); got.append(rs.read_all())
         for kc, ins in enumerate(cycles):
           if nflow == 1:
             # evaluate with OTHER inputs first, then poke the inputs of this cycle and tick without evaluating again (a test
@@ -117,7 +129,6 @@ def run(ck):
                      {'source': src, 'flow': flow, 'inputs': cycles, 'signals': [s_.path for s_ in d.sigs]},
                      {'error': f'{type(e).__name__}: {e}'[:400]})
         continue
-      want = [list(b_) for (_a, b_) in ref_trace]
       ck.count({'src_hash': hash(src) & 0xffffffff, 'flow': flow, 'drive': 'tick-only'}, nontrivial=bool(ff_ids))
       ck.hist('tick_only_flow', flow)
       if [list(g) for g in got] != want:
@@ -125,7 +136,7 @@ def run(ck):
         ck.violation('tick-only-not-F-of-pre-edge-state', {'flow': flow},
                      {'source': src, 'flow': flow, 'tick_only_inputs': cycles, 'signals': [s_.path for s_ in d.sigs]},
                      {'cycle': k, 'impl': list(got[k]), 'ref': want[k], 'signals': [s_.path for s_ in d.sigs],
-                      'oracle': 'poke inputs, sim_tick(), read: the state after the tick is F(pre-edge state, current inputs) with the combinational logic settled'})
+                      'oracle': '(sim_reset() first for the first flow, step 0 = the state it leaves;) poke inputs, sim_tick(), read: the state after the tick is F(pre-edge state, current inputs) with the combinational logic settled'})
     comb_order = runs[1][1]
     perms = list(itertools.permutations(ff_ids)) if len(ff_ids) <= 4 else [tuple(rng.sample(ff_ids, len(ff_ids))) for _ in range(24)]
     if len(ff_ids) > 6: perms = perms[:3]
